@@ -34,5 +34,17 @@ func TestSweep(t *testing.T) {
 			}
 		}
 	}
+	// parents produced by a growing Append of partial frames
+	for _, tn := range names {
+		for C := 2; C <= 8; C++ {
+			for pre := 0; pre < C; pre += 1 + C/4 {
+				for srcN := 1; srcN <= 3*C+2; srcN += 1 + C/5 {
+					for ch := 0; ch < C; ch++ {
+						Oracle.One(t, env, rec, "sweep", &Case{T: tn, C: C, A: pre, Ch: ch, GrownSrc: srcN})
+					}
+				}
+			}
+		}
+	}
 	rec.Exhaustive("13 types x C 1..8 x roots <=6(9) frames x all frame-aligned windows x every channel x every index", true)
 }
